@@ -85,12 +85,25 @@ def sensitivity(argv):
         name = fn[:-6]
         path = os.path.join(MUTANT_DIR, fn)
         meta = read_patch_meta(path)
-        prop = meta.get("property")
-        if a.only and prop != a.only:
-            continue
         if a.mutant and a.mutant not in name:
             continue
         neutral = name.startswith("neutral_")
+        # a neutral patch must leave EVERY check green; a mutant is run against its own property
+        props = ["C09", "C05", "C15"] if neutral else [meta.get("property")]
+        for prop in props:
+            if a.only and prop != a.only:
+                continue
+            failed += run_one(a, name, path, prop, neutral, results)
+    os.makedirs(common.OUT_DIR, exist_ok=True)
+    with open(os.path.join(common.OUT_DIR, "selftest-sensitivity.json"), "w") as f:
+        json.dump(results, f, indent=1)
+    print(f"sensitivity: {len(results) - failed}/{len(results)} as expected")
+    return 0 if failed == 0 else 1
+
+
+def run_one(a, name, path, prop, neutral, results):
+    failed = 0
+    if True:
         tests = None
         if a.with_tests:
             tests = passes_unit_tests(path)
@@ -116,16 +129,12 @@ def sensitivity(argv):
             results.append({"mutant": name, "property": prop, "neutral": neutral, "exit": r.returncode, "signatures": sigs, "ok": ok, "wall_s": round(time.time() - t0, 1), "unit_tests": tests})
             status = "ok  " if ok else "FAIL"
             exp = "stays green" if neutral else "detected"
-            print(f"{status} {name:55s} exit={r.returncode} {exp if ok else 'NOT ' + exp} {sigs[:3]} {'' if tests is None else ('tests:' + tests[1])} {time.time() - t0:.0f}s", flush=True)
+            print(f"{status} {prop} {name:55s} exit={r.returncode} {exp if ok else 'NOT ' + exp} {sigs[:3]} {'' if tests is None else ('tests:' + tests[1])} {time.time() - t0:.0f}s", flush=True)
             if not ok:
                 print("     " + "\n     ".join(r.stdout.strip().splitlines()[-6:]))
         finally:
             shutil.rmtree(d, ignore_errors=True)
-    os.makedirs(common.OUT_DIR, exist_ok=True)
-    with open(os.path.join(common.OUT_DIR, "selftest-sensitivity.json"), "w") as f:
-        json.dump(results, f, indent=1)
-    print(f"sensitivity: {len(results) - failed}/{len(results)} as expected")
-    return 0 if failed == 0 else 1
+    return failed
 
 
 def determinism(argv):
